@@ -39,6 +39,7 @@ EXTERNAL_OK = [
     r"^std::exception::~exception\(\)$", r"^_Unwind_Resume$", r"^__cxa_pure_virtual$",
     r"^__cxa_guard_(acquire|release|abort)$", r"^__tls_get_addr$", r"^__cxa_atexit$",
     r"^std::this_thread::__sleep_for\(", r"^pthread_self$",
+    r"^qv_arg\(\)$", r"^qv_level\(\)$",  # argument markers of the macro witness
 ]
 EXTERNAL_OK_RE = [re.compile(x) for x in EXTERNAL_OK]
 
@@ -87,8 +88,18 @@ def fn_only(n):
     return n if len(n) <= 140 else n[:137] + "..."
 
 
+_REFS_CACHE = {}
+
+
 def refs_of(path, wanted):
     """symbols referenced (not called) inside the bodies of the functions in `wanted` (set of mangled names)"""
+    if path not in _REFS_CACHE:
+        _REFS_CACHE[path] = _refs_all(path)
+    allr = _REFS_CACHE[path]
+    return {f: allr[f] for f in wanted if f in allr}
+
+
+def _refs_all(path):
     out = {}
     cur = None
     sym = re.compile(r'@("[^"]+"|_Z[\w.$]+)')
@@ -97,8 +108,6 @@ def refs_of(path, wanted):
             if line.startswith("define"):
                 m = qir.DEFINE_RE.match(line)
                 cur = m.group(1).strip('"') if m else None
-                if cur not in wanted:
-                    cur = None
                 continue
             if line.startswith("}"):
                 cur = None
@@ -226,7 +235,7 @@ def macro_tier(ctx):
     analyse_roots(ctx, cg, ir, roots, "macros", True, "C11.R4")
 
 
-BASE = ["int", "double", "bool", "char", "unsigned long", "qv::Colour", "void const*", "char const*", "std::string", "std::string_view",
+BASE = ["int", "double", "short", "char", "unsigned long", "qv::Colour", "void const*", "char const*", "std::string", "std::string_view",
         "qv::Deferred", "std::chrono::seconds"]
 ORDERED = ["int", "std::string", "double", "unsigned long", "char"]
 
